@@ -40,7 +40,7 @@ EXTRA_BASES = [':foo', ':ARG0', ':', ':a-b', ':TOP', ':instance', ':op', ':ARG10
 
 def cases(ctx):
     q = ctx.tier == 'quick'
-    names = M.names(40) + [f'chain{i}' for i in range(10)] + ['both']
+    names = M.names(40) + [f'chain{i}' for i in range(10)] + ['both', 'prefix']
     for j, name in enumerate(names):
         if ctx.mine(j):
             yield 'model', {'model': name}
@@ -105,7 +105,7 @@ def oracle(ctx, kind, p):
         ctx.case(p, True)
     elif kind == 'tree':
         rng = ctx.rng('tree', p['i'])
-        name = (M.FIXED + [f'rand{i}' for i in range(8)] + ['both', 'chain0', 'chain5', 'chain7'])[p['i'] % 16]
+        name = (M.FIXED + [f'rand{i}' for i in range(8)] + ['both', 'chain0', 'chain5', 'chain7', 'prefix'])[p['i'] % 17]
         _, m, rm, spec = M.get(name)
         if p['i'] % 3 == 0:
             # model churn: a short-lived model object built from a fresh random table, used once
